@@ -341,6 +341,35 @@ def run_foreign(case, ctx):
             key = classify.classify_item(item, "xml-foreign")
             rec.violation(key, "%s: %s.%s expected %r got %r" % (
                 mode, item["path"], item["field"], item["exp"], item["obs"]), dict(case, text=text))
+    # the same file as other tools store it: correctly declared UTF-16 / ISO-8859-1, UTF-8 with a byte order mark
+    if case.get("i", 0) % 4 == 0 and text.startswith('<?xml version="1.0" encoding="UTF-8"?>'):
+        import odml
+        from vlib import env
+        body = text.split("?>", 1)[1]
+        for enc_name, data in (("utf-16", None), ("iso-8859-1", None), ("utf-8-sig", None)):
+            try:
+                decl = '<?xml version="1.0" encoding="%s"?>' % {"utf-8-sig": "UTF-8"}.get(enc_name, enc_name.upper())
+                data = (decl + body).encode(enc_name)
+            except UnicodeEncodeError:
+                rec.count("foreign-file-encoding", enc_name + ":content-not-in-this-encoding")
+                continue
+            path = os.path.join(env.scratch(), "c01_foreign_%d.xml" % os.getpid())
+            with open(path, "wb") as f:
+                f.write(data)
+            rec.monitor("foreign-file-encoding")
+            rec.count("foreign-file-encoding", enc_name)
+            with warnings.catch_warnings():
+                warnings.simplefilter("ignore")
+                try:
+                    loaded = odml.load(path, show_warnings=False)
+                except Exception as exc:
+                    rec.violation("xml/foreign/file-in-%s-rejected:%s" % (enc_name, type(exc).__name__), str(exc)[:200],
+                                  dict(case, text=text, encoding=enc_name))
+                    continue
+            d_ = model.diff(exp, strip_model(model.model_of(loaded)))
+            if d_:
+                rec.violation("xml/foreign/file-in-%s-differs:%s" % (enc_name, d_[0]["field"]), repr(d_[:1])[:300],
+                              dict(case, text=text, encoding=enc_name))
 
 
 def foreign_safe(spec):
